@@ -22,7 +22,7 @@ PLANS = {
     },
     "C03": {
         "level": "other",
-        "sidecars": ["serialise", "params", "driver", "grouping", "patching", "residues", "cellproto", "repair"],
+        "sidecars": ["serialise", "params", "driver", "grouping", "patching", "residues", "cellproto", "repair", "flipproto", "lonepair", "nucleic", "carboxproto", "alcdispatch", "waterlp", "heavycount"],
         "extras": [{"name": "c03_atom_set_table", "module": "tables.x_checks", "func": "c03_atom_sets", "python": "vt"},
                    {"name": "report_filter", "module": "tables.report_filter", "func": "run", "python": "vt"},
                    {"name": "c07_records", "module": "bounded.c07_records", "func": "run", "python": "venv", "timeout": 3000}],
@@ -47,7 +47,7 @@ PLANS = {
     },
     "C05": {
         "level": "other",
-        "sidecars": ["bonds", "debump", "quatfit", "tetra", "repair", "residues"],
+        "sidecars": ["bonds", "debump", "quatfit", "tetra", "repair", "residues", "lonepair", "nucleic", "alcdispatch", "waterlp"],
         "extras": [{"name": "c04_torsion_rank_table", "module": "tables.x_checks", "func": "c04_torsion_ranks", "python": "vt"},
                    {"name": "c05_geometry", "module": "bounded.c05_geometry", "func": "run", "python": "venv"}],
         "explanation": "Contracts decide only the placement mechanism: the fitted placement is a rigid motion of the "
@@ -59,21 +59,21 @@ PLANS = {
     },
     "C04": {
         "level": "proof",
-        "sidecars": ["debump", "driver", "quatfit", "repair", "patching", "bumps", "cellproto", "tetra"],
+        "sidecars": ["debump", "driver", "quatfit", "repair", "patching", "bumps", "cellproto", "tetra", "flipproto", "heavycount"],
         "extras": [{"name": "c04_torsion_rank_table", "module": "tables.x_checks", "func": "c04_torsion_ranks", "python": "vt"}],
         "explanation": "set_dihedral_angle frame + rigid rotation, debump_residue frame, option flags (call trace), "
                        "template rank table X",
     },
     "C12": {
         "level": "proof",
-        "sidecars": ["driver", "charges", "repair", "debump"],
+        "sidecars": ["driver", "charges", "repair", "debump", "heavycount"],
         "extras": [],
         "explanation": "failure side: the output writers are reached only after every check and the whole computation, "
                        "never on a path on which an exception escapes; option checks; integrality guard",
     },
     "C07": {
         "level": "proof",
-        "sidecars": ["pdbread", "grouping", "readloop", "driver", "residues"],
+        "sidecars": ["pdbread", "grouping", "readloop", "driver", "residues", "resident"],
         "extras": [{"name": "c07_records", "module": "bounded.c07_records", "func": "run", "python": "venv", "timeout": 3000}],
         "explanation": "ATOM/HETATM column parser proved (layout logic), drop_water proved; residue grouping of "
                        "Biomolecule.__init__ proved by induction over the record list (loop invariant with ghost books: none "
@@ -83,7 +83,7 @@ PLANS = {
     },
     "C09": {
         "level": "proof",
-        "sidecars": ["pqrformat", "driver", "charges", "pdbread", "serialise"],
+        "sidecars": ["pqrformat", "driver", "charges", "pdbread", "serialise", "resident"],
         "extras": [],
         "explanation": "formatting options only reach the serialiser; serialisation contracts; driver call trace; "
                        "--neutraln/--neutralc select exactly the patch of their own end on chain-terminal residues "
@@ -97,7 +97,7 @@ PLANS = {
     },
     "C01": {
         "level": "proof",
-        "sidecars": ["params", "charges", "driver", "serialise"],
+        "sidecars": ["params", "charges", "driver", "serialise", "namesmap"],
         "extras": [{"name": "c01_provenance_table", "module": "tables.x_checks", "func": "c01_provenance", "python": "vt"},
                    {"name": "c01_names", "module": "bounded.c01_names", "func": "run", "python": "venv"}],
         "explanation": "lookup = table entry or (None, None); apply_force_field partitions atoms into written/unassigned "
@@ -105,7 +105,7 @@ PLANS = {
     },
     "C02": {
         "level": "proof",
-        "sidecars": ["charges", "driver", "patching", "grouping", "serialise"],
+        "sidecars": ["charges", "driver", "patching", "grouping", "serialise", "resident"],
         "extras": [{"name": "c02_charge_table", "module": "tables.x_checks", "func": "c02_charges", "python": "vt"},
                    {"name": "c02_termini", "module": "bounded.c02_termini", "func": "run", "python": "venv"}],
         "explanation": "state naming, residue charge, integrality guard and per-chain termini proved; force-field data "
@@ -154,7 +154,7 @@ PLANS = {
     },
     "C14": {
         "level": "proof",
-        "sidecars": ["cells", "cellproto", "debump", "residues", "bumps", "tetra"],
+        "sidecars": ["cells", "cellproto", "debump", "residues", "bumps", "tetra", "flipproto", "lonepair", "carboxproto", "alcdispatch", "waterlp"],
         "extras": [{"name": "c14_protocol", "module": "bounded.c14_protocol", "func": "run", "python": "venv"},
                    {"name": "c14_thresholds", "module": "tables.c14_thresholds", "func": "run", "python": "vt"}],
         "explanation": "contracts on Cells.add_cell/remove_cell/get_near_cells and the tiling lemma (also for re-added atoms "
